@@ -93,11 +93,29 @@ def dropLeadingLF : Str → Str
   | '\n' :: rest => rest
   | s => s
 
+/-- `<input>` types whose `value` attribute is never what gets posted: reset and button inputs
+    are never successful controls; a file input posts the chosen file, an image input the click
+    coordinates -/
+def inputNeverPosts (ty : Str) : Bool :=
+  ty = "reset".toList || ty = "button".toList || ty = "file".toList || ty = "image".toList
+
+/-- `<button type=…>` that never submits: reset and button -/
+def buttonNeverPosts (ty : Str) : Bool := ty = "reset".toList || ty = "button".toList
+
+/-- a SUBMITTER: a control that posts its pair only when it is the one that was activated to
+    submit the form — `<button>` (type submit, the default) and `<input type=submit>` -/
+def isSubmitter (tag : Str) (attrs : List (Str × Str)) : Bool :=
+  if tag = "button".toList then !buttonNeverPosts (asciiLower ((attr? attrs sType).getD "submit".toList))
+  else tag = sInput && asciiLower ((attr? attrs sType).getD "text".toList) = "submit".toList
+
 /-- HTML "successful control" (the part the property talks about): a control without a name or
     with an empty name posts nothing; checkbox/radio post `value` (default "on") only when
-    checked; textarea posts its text minus one leading newline; every other input and a (pressed)
-    button post `value` (default "").  Not modelled: newline normalisation (CR/CRLF → LF by the
-    input stream, newline stripping in text inputs, CRLF on submission). -/
+    checked; textarea posts its text minus one leading newline; reset / button / file / image
+    inputs and reset / button `<button>`s never post their `value`; every other input posts
+    `value` (default "").  For a SUBMITTER (`isSubmitter`) the result is what it posts WHEN IT IS
+    THE ACTIVATED ONE: a form submission has at most one activated submitter, the other submitters
+    post nothing (`Form.lean`: `submitters ≤ 1`).  Not modelled: newline normalisation (CR/CRLF →
+    LF by the input stream, newline stripping in text inputs, CRLF on submission). -/
 def submitted (tag : Str) (attrs : List (Str × Str)) (text : Str) : Option (Str × Str) :=
   match attr? attrs sName with
   | none => none
@@ -107,9 +125,12 @@ def submitted (tag : Str) (attrs : List (Str × Str)) (text : Str) : Option (Str
       let ty := asciiLower ((attr? attrs sType).getD "text".toList)
       if ty = "checkbox".toList || ty = "radio".toList then
         if (attr? attrs sChecked).isSome then some (n, (attr? attrs sValue).getD "on".toList) else none
+      else if inputNeverPosts ty then none
       else some (n, (attr? attrs sValue).getD [])
     else if tag = sTextarea then some (n, dropLeadingLF text)
-    else if tag = "button".toList then some (n, (attr? attrs sValue).getD [])
+    else if tag = "button".toList then
+      if buttonNeverPosts (asciiLower ((attr? attrs sType).getD "submit".toList)) then none
+      else some (n, (attr? attrs sValue).getD [])
     else none
 
 /-- an `<option>` inside a `<select name=n>` posts `(n, value)` when selected; its value is the
